@@ -26,6 +26,7 @@
 #include <signal.h>
 #include <sys/socket.h>
 #include <sys/time.h>
+#include <sys/epoll.h>
 #include <sys/wait.h>
 #include <sys/mman.h>
 #include <netinet/in.h>
@@ -75,6 +76,7 @@ int __real_getsockname(int fd, struct sockaddr* addr, socklen_t* len);
 int __real_getpeername(int fd, struct sockaddr* addr, socklen_t* len);
 int __real_gettimeofday(struct timeval* tv, void* tz);
 int __real_pthread_mutex_lock(pthread_mutex_t* m);
+int __real_epoll_ctl(int epfd, int op, int fd, struct epoll_event* event);
 }
 
 struct LSock { int fd; int peer; bool open; int closes; bool handed; int conn; };
@@ -181,6 +183,19 @@ extern "C" int __wrap_getpeername(int fd, struct sockaddr* addr, socklen_t* len)
 {
   int id = g_active ? lookup(fd) : -1;
   return id < 0 ? __real_getpeername(fd, addr, len) : fakeAddr(id, true, addr, len);
+}
+
+// the logical socket of the channel the Connector registered last (its Channel asks for EPOLLOUT; a TcpConnection's for
+// EPOLLIN): names the socket of an unregistered channel_ independently of descriptor-number and address reuse
+static int g_conn_watch = -1;
+extern "C" int __wrap_epoll_ctl(int epfd, int op, int fd, struct epoll_event* event)
+{
+  if (g_active && op == EPOLL_CTL_ADD && event != NULL && (event->events & EPOLLOUT))
+  {
+    int id = lookup(fd);
+    if (id >= 0) g_conn_watch = id;
+  }
+  return __real_epoll_ctl(epfd, op, fd, event);
 }
 
 extern "C" int __wrap_gettimeofday(struct timeval* tv, void* tz)
@@ -484,7 +499,8 @@ static int runCase(const std::vector<string>& lines)
         {
           // a registered channel's descriptor is open, so the table is current; once unregistered (descriptor closed,
           // number possibly reused) keep the logical socket seen while it was registered
-          if (p->channel_->addedToLoop_ || p->channel_.get() != chanPtr) { chanPtr = p->channel_.get(); chanSock = lookup(p->channel_->fd()); }
+          chanPtr = p->channel_.get();
+          chanSock = p->channel_->addedToLoop_ ? lookup(p->channel_->fd()) : g_conn_watch;
           kst += std::to_string(chanSock) + ":" + (p->channel_->addedToLoop_ ? "1" : "0");
         }
         else kst += "-";
@@ -562,6 +578,7 @@ static void resetGlobals()
   g_conns.clear();
   g_race_mutex = NULL;
   g_race_client = NULL;
+  g_conn_watch = -1;
 }
 
 // Cases run one after the other in a worker process, each on a fresh thread (an EventLoop is bound to its thread and is
